@@ -5,6 +5,8 @@ package app
 // shared with block execution).
 
 import (
+	"strings"
+
 	"github.com/Oneledger/protocol/action"
 	action_gov "github.com/Oneledger/protocol/action/governance"
 	action_ons "github.com/Oneledger/protocol/action/ons"
@@ -12,6 +14,8 @@ import (
 	"github.com/Oneledger/protocol/data/governance"
 	sv "github.com/Oneledger/protocol/zz_sv"
 )
+
+var svPropID4 = governance.ProposalID(strings.Repeat("09", 32))
 
 var svC07Updates = []string{
 	"propOptions.general.fundingGoal:60000000000",
@@ -26,7 +30,7 @@ var svC07Updates = []string{
 // runs it); anybody may submit the finalise transaction to the mempool in the
 // meantime.
 //
-// sv:bounds genesis with 2 validators, ONS base price inside the documented range; a configuration-update proposal in the passed store (votes yes, yes; escrow 10) whose update is one of 5 (general funding goal, general pass percentage, ONS per-block fee, ONS base price, fee decimal); symbolic funded balance of A; block 3 carries A's PROPOSAL_CREATE (general type, the funding goal and pass percentage of the options in force, initial funding 2*10^9) and A's DOMAIN_CREATE of xy.ol with an arbitrary non-negative price, block 4 carries another PROPOSAL_CREATE with the old terms; one injected CheckTx of the PROPOSAL_FINALIZE transaction (signed by validator A) at any of the 6 call boundaries of block 3
+// sv:bounds genesis with 2 validators, ONS base price inside the documented range; a configuration-update proposal in the passed store (votes yes, yes; escrow 10) whose update is one of 5 (general funding goal, general pass percentage, ONS per-block fee, ONS base price, fee decimal); symbolic funded balance of A; block 3 carries A's PROPOSAL_CREATE (general type, the funding goal and pass percentage of the options in force, initial funding 2*10^9) and A's DOMAIN_CREATE of xy.ol with an arbitrary non-negative price, block 4 carries another PROPOSAL_CREATE with the old terms; a second proposal in voting that B's yes vote would complete; one injected CheckTx of the PROPOSAL_FINALIZE transaction (signed by validator A), of B's completing vote, or of an expiry / finalise naming the second proposal, at any of the 6 call boundaries of block 3
 // sv:outside several CheckTx calls; other option groups (staking and evidence updates keep no in-memory copy); real concurrency
 // sv:goal DeliverTx codes / gas / data, validator updates and the ordered write sets of both blocks are the same with and without the injected CheckTx
 func SV_C07_governance_checktx() {
@@ -70,6 +74,29 @@ func SV_C07_governance_checktx() {
 		if err := pm.ProposalFund.AddFunds(svPropID, svParty_(1).Addr, balance.NewAmountFromInt(10)); err != nil {
 			sv.Unreachable("funds")
 		}
+		// a second proposal (general type) in voting, far from its deadline: A has voted
+		// yes, B's yes vote completes it
+		p2 := governance.NewProposal(svPropID4, governance.ProposalTypeGeneral, "descr", "headline", svParty_(1).Addr,
+			1, balance.NewAmountFromInt(10), 1<<39, 51, "")
+		p2.Status = governance.ProposalStatusVoting
+		if err := pm.Proposal.WithPrefixType(governance.ProposalStateActive).Set(p2); err != nil {
+			sv.Unreachable("second proposal")
+		}
+		for i := 0; i < 2; i++ {
+			pv := governance.NewProposalVote(svParty_(i).Addr, governance.OPIN_UNKNOWN, 3000000)
+			if err := pm.ProposalVote.Setup(svPropID4, pv); err != nil {
+				sv.Unreachable("vote setup 2")
+			}
+			if i == 0 {
+				pv.Opinion = governance.OPIN_POSITIVE
+				if err := pm.ProposalVote.Update(svPropID4, pv); err != nil {
+					sv.Unreachable("vote record 2")
+				}
+			}
+		}
+		if err := pm.ProposalFund.AddFunds(svPropID4, svParty_(1).Addr, balance.NewAmountFromInt(10)); err != nil {
+			sv.Unreachable("funds 2")
+		}
 		svCommitBlock(app)
 		return app
 	}
@@ -84,13 +111,24 @@ func SV_C07_governance_checktx() {
 	domain := svSign(svRaw(action.DOMAIN_CREATE, &action_ons.DomainCreate{Owner: who, Beneficiary: who, Name: "xy.ol", Uri: "",
 		BuyingPrice: action.Amount{Currency: "OLT", Value: *balance.NewAmountFromBigInt(price)}}), 0)
 	fin := svSign(svRaw(action.PROPOSAL_FINALIZE, &action_gov.FinalizeProposal{ProposalID: svPropID, ValidatorAddress: who}), 0)
+	// the transaction the mempool checks: the finalise, B's completing vote on the second
+	// proposal, or an expiry / a finalise of that second proposal
+	b2 := svParty_(1).Addr
+	switch sv.Choice("chk.kind", 4) {
+	case 1:
+		fin = svSign(svRaw(action.PROPOSAL_VOTE, &action_gov.VoteProposal{ProposalID: svPropID4, Address: b2, ValidatorAddress: b2, Opinion: governance.OPIN_POSITIVE}), 1, 1)
+	case 2:
+		fin = svSign(svRaw(action.EXPIRE_VOTES, &action_gov.ExpireVotes{ProposalID: svPropID4, ValidatorAddress: who}), 0)
+	case 3:
+		fin = svSign(svRaw(action.PROPOSAL_FINALIZE, &action_gov.FinalizeProposal{ProposalID: svPropID4, ValidatorAddress: who}), 0)
+	}
 	blk := []action.SignedTx{create(svPropID2), domain}
 	where := sv.Choice("inject.at", 6)
 	ta1 := svBlock(a, 3, nv, blk, func(pos int) {
 		if pos == where {
 			r := svCheckEnvGas(a, fin)
 			sv.Observe("check.code", r.Code)
-			sv.Cover(r.Code == 0, "finalise-admitted-by-the-mempool")
+			sv.Cover(r.Code == 0, "governance-transaction-admitted-by-the-mempool")
 			sv.Cover(true, "checktx-injected")
 		}
 	})
